@@ -930,83 +930,135 @@ def _both_class(R, rid, a, bs, trace, c=None, depth=0):
            expect="ClassRepr::Parsed { class: <result of class_merger_merge> }")
 
 
-def _annotation_shape(n):
-    """Annotation struct literal -> {type, pairs{name: shape}}."""
+class _AnnEv(T.Evaluator):
+    """Value of an annotation-building expression for one Side: helpers of the module are inlined (an extracted `env_type_value(side)` is
+    the literal it returns), a local that is not bound is evaluated from its `let` initialiser, a Side-typed local without one (a
+    parameter) stands for the side of the cell, `FieldDescriptor::from_class(C)` keeps its argument."""
+
+    def __init__(self, scope, inline, side):
+        super().__init__(calls={"from_class": lambda a: T.V("from_class", *a)}, inline=inline, max_inline=3)
+        self.scope = scope
+        self.side = side
+        self.side_locals = set()
+        self.seen = set()
+        self._resolving = set()
+
+    def ev(self, n, env):
+        k = n.get("k")
+        if k == "struct":
+            self.seen.add(id(n))
+        if k == "path" and n["res"].get("r") == "local" and self.depth == 0:
+            lid = n["res"]["id"]
+            if lid not in env and lid not in self._resolving:
+                init = H.let_init_of(self.scope, lid)
+                if init is not None:
+                    self._resolving.add(lid)
+                    try:
+                        env[lid] = self.ev(init, env)
+                    finally:
+                        self._resolving.discard(lid)
+                elif n.get("ty") == SIDE_ADT:
+                    self.side_locals.add(lid)
+                    return T.V(self.side)
+        return super().ev(n, env)
+
+
+def _class_of(v):
+    """class name constant of `FieldDescriptor::from_class(CONST)` (or of the bare constant)"""
+    if v[0] == "v" and v[1] == "from_class" and len(v[2]) == 1:
+        v = v[2][0]
+    return v[1] if v[0] == "s" else "?" + T.show(v)[:60]
+
+
+def _value_shape(v):
+    """shape of an abstract ElementValue"""
+    if v[0] == "st" and v[1] == "Enum":
+        return {"enum": _class_of(v[2]["type_name"])} if "type_name" in v[2] else "?Enum"
+    if v[0] == "v":
+        return {"Class": "class", "ArrayType": "array", "AnnotationInterface": "annotation"}.get(v[1], v[1])
+    return "?" + T.show(v)[:60]
+
+
+def _pair_literals(e):
+    """ElementValuePair struct literals of an `element_value_pairs` expression (not those of nested annotations)"""
+    stack, pairs = [e], []
+    while stack:
+        x = stack.pop()
+        if x.get("k") == "struct" and (x.get("adt") or "").endswith("::ElementValuePair"):
+            pairs.append(x)
+            continue
+        if x.get("k") == "struct" and (x.get("adt") or "").endswith("::Annotation"):
+            continue
+        stack.extend(H.children(x))
+    return pairs
+
+
+def _annotation_value(b, n, inline, side):
+    """Annotation struct literal `n` of body `b`, evaluated for one side -> ({type, pairs{name: abstract value}}, evaluator)."""
+    ev = _AnnEv(b["body"], inline, side)
+    env = {}
+    for i, (pid, t) in enumerate(zip(H.param_ids(b), b.get("inputs") or [])):
+        if "Side" not in (t or ""):
+            env[pid] = T.sym("$arg%d" % i)
     out = {"type": None, "pairs": {}}
     for f in n["fields"]:
         if f["name"] == "annotation_type":
-            vals = [H.const_value(x) for x in H.walk(f["e"]) if x.get("k") == "path" and H.const_name(x)]
-            out["type"] = vals[0] if len(vals) == 1 else vals
+            out["type"] = _class_of(ev.ev(f["e"], env))
         elif f["name"] == "element_value_pairs":
-            stack = [f["e"]]
-            pairs = []
-            while stack:
-                x = stack.pop()
-                if x.get("k") == "struct" and (x.get("adt") or "").endswith("::ElementValuePair"):
-                    pairs.append(x)
-                    continue
-                if x.get("k") == "struct" and (x.get("adt") or "").endswith("::Annotation"):
-                    continue
-                stack.extend(H.children(x))
-            for p in pairs:
-                nm = None
-                shape = None
+            for p in _pair_literals(f["e"]):
+                ev.seen.add(id(p))
+                nm, val = None, None
                 for pf in p["fields"]:
                     if pf["name"] == "name":
-                        lits = [H.const_value(x) for x in H.walk(pf["e"]) if x.get("k") == "lit"]
-                        nm = lits[0] if len(lits) == 1 else None
+                        v = ev.ev(pf["e"], env)
+                        nm = v[1] if v[0] == "s" else "?" + T.show(v)[:40]
                     elif pf["name"] == "value":
-                        shape = _value_shape(pf["e"])
-                out["pairs"][nm] = shape
-    return out
-
-
-def _value_shape(e):
-    e = H.peel(e)
-    c = H.ctor_of(e)
-    if not c or not (c[0] or "").endswith("::ElementValue"):
-        return "?" + H.render(e)[:60]
-    if c[1] == "Enum" and e.get("k") == "struct":
-        for f in e["fields"]:
-            if f["name"] == "type_name":
-                vals = [H.const_value(x) for x in H.walk(f["e"]) if x.get("k") == "path" and H.const_name(x)]
-                return {"enum": vals[0] if len(vals) == 1 else vals}
-    if c[1] == "Class":
-        return "class"
-    if c[1] == "ArrayType":
-        return "array"
-    if c[1] == "AnnotationInterface":
-        return "annotation"
-    return c[1]
+                        val = ev.ev(pf["e"], env)
+                out["pairs"][nm] = val
+    return out, ev
 
 
 def _side_names_and_annotations(c, R, rid, spec):
     mod_bodies = [b for b in c.bodies if _in_mod(b) and isinstance(b.get("body"), dict)]
     inline = {b["key"]: b for b in mod_bodies if b.get("params") is not None}
-    # ---- EnvType constant names: every ElementValue::Enum literal of the module
-    n_enum = 0
-    for b in mod_bodies:
-        for n in H.walk(b["body"]):
-            if n.get("k") == "struct" and n.get("variant") == "Enum" and (n.get("adt") or "").endswith("::ElementValue"):
-                n_enum += 1
-                fe = [f["e"] for f in n["fields"] if f["name"] == "const_name"]
-                side_locals = set()
-                for x in H.walk(fe[0]) if fe else []:
-                    if x.get("k") == "path" and x["res"].get("r") == "local" and x.get("ty") == SIDE_ADT:
-                        side_locals.add(x["res"]["id"])
-                for v, want in spec["env_type_constants"].items():
-                    got = None
-                    if fe and len(side_locals) == 1:
-                        got = T.Evaluator(inline=inline).ev(fe[0], {list(side_locals)[0]: T.V(v)})
-                    R.inst(rid, "env-type-name:%s:%s" % (b["name"], v), got == ("s", want), sp=n["sp"], expect=want,
-                           got=T.show(got) if got else "const_name is not a function of one Side value")
-    R.anchor(rid, "ElementValue::Enum literals carrying the side (sided_annotation, make_annotation)", n_enum >= 2)
-    # ---- annotation shapes
-    shapes = []
+    roles = {w["type"]: nm for nm, w in spec["annotations"].items()}
+    # ---- every Annotation literal of the module, evaluated for both sides (private helpers inlined)
+    anns = []       # (body, literal, shape, {side: value record}, {side: evaluator})
+    reached = set()
     for b in mod_bodies:
         for n in H.walk(b["body"]):
             if n.get("k") == "struct" and (n.get("adt") or "").endswith("::annotation::Annotation"):
-                shapes.append((b, n, _annotation_shape(n)))
+                vals, evs = {}, {}
+                for v in spec["env_type_constants"]:
+                    vals[v], evs[v] = _annotation_value(b, n, inline, v)
+                    reached |= evs[v].seen
+                shp = [{"type": vals[v]["type"], "pairs": {k: _value_shape(x) if x is not None else None for k, x in vals[v]["pairs"].items()}}
+                       for v in spec["env_type_constants"]]
+                shape = shp[0] if all(x == shp[0] for x in shp) else {"type": "?differs by side", "pairs": {}}
+                anns.append((b, n, shape, vals, evs))
+    # ---- EnvType constant names: every enum-valued element of an annotation, as a function of the side
+    n_enum = 0
+    for (b, n, shape, vals, evs) in anns:
+        role = roles.get(shape["type"], b["name"])
+        for pname, sh in sorted(shape["pairs"].items(), key=lambda kv: str(kv[0])):
+            if not isinstance(sh, dict) or "enum" not in sh:
+                continue
+            n_enum += 1
+            for v, want in spec["env_type_constants"].items():
+                val = vals[v]["pairs"][pname]
+                got = val[2].get("const_name") if val[0] == "st" else None
+                one_side = len(evs[v].side_locals) == 1
+                R.inst(rid, "env-type-name:%s:%s" % (role, v), one_side and got == ("s", want), sp=n["sp"], expect=want,
+                       got=(T.show(got) if got else "?") if one_side else "const_name is not a function of one Side value",
+                       detail="element `%s` of the %s annotation built in %s" % (pname, role, b["name"]))
+    R.anchor(rid, "enum-valued annotation elements carrying the side (Environment.value, EnvironmentInterface.value)", n_enum >= 2)
+    for b in mod_bodies:
+        for n in H.walk(b["body"]):
+            if n.get("k") == "struct" and n.get("variant") == "Enum" and (n.get("adt") or "").endswith("::ElementValue") and id(n) not in reached:
+                R.unrecognised(rid, "env-type-name:%s" % b["name"], "ElementValue::Enum literal that no annotation literal of the module "
+                               "evaluates to (directly or through a helper call)", n["sp"])
+    # ---- annotation shapes
+    shapes = [(b, n, s) for (b, n, s, _, _) in anns]
     for nm, want in spec["annotations"].items():
         got = [(b, n, s) for (b, n, s) in shapes if s["type"] == want["type"]]
         ok = len(got) == 1 and got[0][2]["pairs"] == want["pairs"]
@@ -1017,15 +1069,17 @@ def _side_names_and_annotations(c, R, rid, spec):
             R.inst(rid, "annotation:unknown-type:%s" % b["name"], False, sp=n["sp"], got=s,
                    detail="an annotation of a type that is not one of Environment / EnvironmentInterface / EnvironmentInterfaces")
     # the `itf` element names the interface parameter
-    mk = [b for b in mod_bodies if any(s["type"] == spec["annotations"]["interface"]["type"] and b is bb for (bb, _, s) in shapes)]
+    mk = [a for a in anns if a[2]["type"] == spec["annotations"]["interface"]["type"]]
     if R.anchor(rid, "function building the EnvironmentInterface annotation", len(mk) == 1):
-        b = mk[0]
-        pids = H.param_ids(b)
-        nonside = [p for p, t in zip(pids, b.get("inputs") or []) if "Side" not in t]
-        itf = [x for x in H.walk(b["body"]) if x.get("k") == "call" and (H.ctor_of(x) or (None, None))[1] == "Class"
-               and (H.ctor_of(x)[0] or "").endswith("::ElementValue")]
-        ok = len(itf) == 1 and len(nonside) == 1 and _mentions(itf[0], nonside[0])
-        R.inst(rid, "annotation:interface:itf-is-the-interface", ok, sp=b["sp"], detail="`itf` must be the class of the one-sided interface")
+        b, n, shape, vals, evs = mk[0]
+        ok = True
+        got = {}
+        for v in spec["env_type_constants"]:
+            val = vals[v]["pairs"].get("itf")
+            got[v] = T.show(val) if val is not None else None
+            ok = ok and val is not None and val[0] == "v" and val[1] == "Class" and len(val[2]) == 1 and "$arg" in T.show(val[2][0])
+        R.inst(rid, "annotation:interface:itf-is-the-interface", ok, sp=b["sp"], got=got, expect="ElementValue::Class(<descriptor of the interface parameter>)",
+               detail="`itf` must be the class of the one-sided interface")
     # ---- class-level marking helper
     vs = _find_fn(c, "visit_sided_annotation", lambda b: any("Side" in t for t in b["inputs"]) and "ClassFile" in (b.get("output") or ""))
     if R.anchor(rid, "fn dukebox::merge::visit_sided_annotation", vs):
